@@ -84,8 +84,8 @@ def pmap(fn, items, procs=None, chunksize=None):
     if not items:
         return []
     procs = procs or min(14, max(1, len(items)))
-    if procs == 1 or len(items) < 4:
-        return [_call((fn, it)) for it in items]
+    # always fork, even for a single item: running jedi in the parent would leave a helper process, its
+    # stderr thread and a held lock behind, and the next pool's workers could deadlock on them
     ctx = multiprocessing.get_context('fork')
     with ctx.Pool(procs, initializer=_init_worker) as pool:
         cs = chunksize or max(1, len(items) // (procs * 8))
